@@ -1293,10 +1293,11 @@ class Range(NumericTuple):
     def _validate_order(self, val, step, allow_None):
         if val is None and allow_None:
             return
-        elif val is not None and (val[0] is None or val[1] is None):
-            return
 
         start, end = val
+        if start is None or end is None:
+            return
+
         if step is not None and step > 0 and not start <= end:
             raise ValueError(
                 f"{_validate_error_prefix(self)} end {end} is less than its "
